@@ -338,6 +338,66 @@ pub fn text_strategy(line: BoxedStrategy<String>, max_lines: usize) -> impl Stra
     })
 }
 
+/// extreme operands that replace a number of a valid line (family "mutant")
+pub const EXTREMES: [&str; 30] = [
+    "0", "-1", "1", "12", "13", "24", "25", "28", "29", "30", "31", "32", "59", "60", "61", "99", "100", "365", "366", "9999", "10000", "1e19", "99999999999999999999", "2147483647", "2147483648", "4294967296", "9223372036854775807", "9223372036854775808", "253402300800",
+    "0,0000001",
+];
+
+/// a valid line of the other properties' generators with one to three token-level mutations
+/// (delete, duplicate, swap with the neighbour, replace a numeric token by an extreme one, glue to the neighbour)
+pub fn mutant_text() -> impl Strategy<Value = (Cfg, String, String)> {
+    (crate::mixed::any_line(), 0usize..4, prop::collection::vec((0u8..6, any::<u16>(), 0usize..EXTREMES.len()), 1..4)).prop_map(|(g, sep, muts)| {
+        let (dec, thou) = crate::common::READ_SEPS[sep];
+        let cfg = g.cfg(dec, thou);
+        let mut lines: Vec<Vec<String>> = g
+            .all_lines()
+            .iter()
+            .map(|l| l.toks.iter().map(|t| format!("{}{}", " ".repeat(t.space as usize), t.text(dec, thou))).collect::<Vec<String>>())
+            .collect();
+        let last = lines.len() - 1;
+        for (kind, pos, ex) in muts {
+            let toks = &mut lines[last];
+            if toks.is_empty() {
+                break;
+            }
+            let i = (pos as usize * toks.len()) >> 16;
+            match kind {
+                0 => {
+                    toks.remove(i);
+                }
+                1 => {
+                    let t = toks[i].clone();
+                    toks.insert(i, t);
+                }
+                2 => {
+                    if i + 1 < toks.len() {
+                        toks.swap(i, i + 1);
+                    }
+                }
+                3 | 4 => {
+                    // replace the digits of the nearest numeric token at or after i (else before) by an extreme
+                    let n = toks.len();
+                    let idx = (i..n).chain(0..i).find(|k| toks[*k].chars().any(|c| c.is_ascii_digit()));
+                    if let Some(k) = idx {
+                        let t = toks[k].clone();
+                        let start = t.find(|c: char| c.is_ascii_digit()).unwrap();
+                        let end = t[start..].find(|c: char| !(c.is_ascii_digit() || c == ',' || c == '.')).map(|e| start + e).unwrap_or(t.len());
+                        toks[k] = format!("{}{}{}", &t[..start], EXTREMES[ex], &t[end..]);
+                    }
+                }
+                _ => {
+                    // glue: remove the blanks in front of the token
+                    let t = toks[i].trim_start().to_string();
+                    toks[i] = t;
+                }
+            }
+        }
+        let text = lines.into_iter().map(|t| t.concat()).collect::<Vec<_>>().join("\n");
+        (cfg, g.lang.clone(), text)
+    })
+}
+
 pub fn case_strategy(tier: Tier) -> impl Strategy<Value = Case> {
     let (frags, lines) = match tier {
         Tier::Quick => (14, 5),
@@ -347,7 +407,9 @@ pub fn case_strategy(tier: Tier) -> impl Strategy<Value = Case> {
         1 => text_strategy(unicode_line().boxed(), lines).prop_map(|t| ("unicode".to_string(), t)),
         3 => text_strategy(soup_line(frags).boxed(), lines).prop_map(|t| ("soup".to_string(), t)),
     ];
-    (cfg_strategy(), lang_strategy(), fam).prop_map(|(cfg, lang, (family, text))| Case { cfg, lang, text, family })
+    let generic = (cfg_strategy(), lang_strategy(), fam).prop_map(|(cfg, lang, (family, text))| Case { cfg, lang, text, family });
+    let mutant = (mutant_text(), lang_strategy(), 0u8..8).prop_map(|((cfg, lang, text), other, pick)| Case { cfg, lang: if pick == 0 { other } else { lang }, text, family: "mutant".to_string() });
+    prop_oneof![3 => generic, 1 => mutant]
 }
 
 /// the panic witnesses of DESIGN.md section 6 plus boundary texts for the slot count
